@@ -76,8 +76,9 @@ var (
 // the shape (concrete case split) and the symbolic values.
 type c13Scenario struct {
 	first, closeKind     int
+	dataLoss             bool // ForceCloseChan fails with ErrForceCloseLocalDataLoss
 	hasCommit, hasAnchor bool
-	spendHeight          uint32            // height at which the closing tx confirmed
+	spendHeight          uint32              // height at which the closing tx confirmed
 	bestHeight           [c13MaxLives]uint32 // best height at each process start
 	htlcs                [3][]channeldb.HTLC // local / remote / remote pending
 	rpExists             bool
@@ -106,8 +107,8 @@ type c13World struct {
 
 	// stop control
 	crashAt [c13MaxLives - 1]int
-	lives   int // number of stops so far
-	effects int // effects in the current life
+	lives   int   // number of stops so far
+	effects int   // effects in the current life
 	perLife []int // effects of the finished lives
 
 	// arbitrator log
@@ -133,7 +134,7 @@ type c13World struct {
 	notifyBad  bool
 	published  int
 	forceClose int
-	errs       int // errors returned to the harness by the driven functions
+	errs       int  // errors returned to the harness by the driven functions
 	bootCC     bool // a restarted process found StateContractClosed in the log
 
 	// the live process
@@ -399,6 +400,9 @@ func (w *c13World) WipeHistory() error {
 type c13Channel struct{ w *c13World }
 
 func (c *c13Channel) ForceCloseChan() (*wire.MsgTx, error) {
+	if c.w.sc.dataLoss {
+		return nil, lnwallet.ErrForceCloseLocalDataLoss
+	}
 	c.w.forceClose++
 	c.w.tick()
 	tx := wire.NewMsgTx(2)
@@ -468,7 +472,7 @@ func (r *c13Registry) HodlUnsubscribeAll(chan<- interface{}) {}
 
 type c13Clock struct{ now time.Time }
 
-func (c *c13Clock) Now() time.Time                         { return c.now }
+func (c *c13Clock) Now() time.Time                           { return c.now }
 func (c *c13Clock) TickAfter(time.Duration) <-chan time.Time { return nil }
 
 func (w *c13World) notifyResolved() {
@@ -477,6 +481,15 @@ func (w *c13World) notifyResolved() {
 	// unresolved contract left in the log.
 	if w.state != StateFullyResolved || len(w.contracts) != 0 {
 		w.notifyBad = true
+	}
+	// ... nor a contract the running process still works on (resolvers
+	// never finish in this harness; the anchor resolver is stateless)
+	if w.arb != nil {
+		for _, res := range w.arb.activeResolvers {
+			if res.ResolverKey() != nil {
+				w.notifyBad = true
+			}
+		}
 	}
 	w.notified++
 	w.fullyClosed = true
@@ -638,13 +651,30 @@ func c13SignDesc(value int64) input.SignDescriptor {
 	return input.SignDescriptor{Output: &wire.TxOut{Value: value}}
 }
 
+// c13LocalCloseTx is our commitment transaction as the chain watcher reports
+// it; its txid is the commit hash of every local-close outpoint.
+func c13LocalCloseTx() *wire.MsgTx {
+	tx := wire.NewMsgTx(2)
+	tx.AddTxIn(&wire.TxIn{PreviousOutPoint: c13ChanPoint})
+
+	return tx
+}
+
+func (w *c13World) commitHash() chainhash.Hash {
+	if w.sc.closeKind == c13CloseLocal {
+		return c13LocalCloseTx().TxHash()
+	}
+
+	return c13CommitHash
+}
+
 func (w *c13World) commitRes() *lnwallet.CommitOutputResolution {
 	if !w.sc.hasCommit {
 		return nil
 	}
 
 	return &lnwallet.CommitOutputResolution{
-		SelfOutPoint:       wire.OutPoint{Hash: c13CommitHash, Index: 0},
+		SelfOutPoint:       wire.OutPoint{Hash: w.commitHash(), Index: 0},
 		SelfOutputSignDesc: c13SignDesc(100_000),
 		MaturityDelay:      144,
 	}
@@ -657,7 +687,7 @@ func (w *c13World) anchorRes() *lnwallet.AnchorResolution {
 
 	return &lnwallet.AnchorResolution{
 		AnchorSignDescriptor: c13SignDesc(330),
-		CommitAnchor:         wire.OutPoint{Hash: c13CommitHash, Index: 1},
+		CommitAnchor:         wire.OutPoint{Hash: w.commitHash(), Index: 1},
 	}
 }
 
@@ -691,8 +721,7 @@ func (w *c13World) deliverClose(arb *ChannelArbitrator) {
 
 	case c13CloseLocal:
 		s := w.summary(channeldb.LocalForceClose)
-		tx := wire.NewMsgTx(2)
-		tx.AddTxIn(&wire.TxIn{PreviousOutPoint: c13ChanPoint})
+		tx := c13LocalCloseTx()
 		err = arb.handleLocalForceCloseEvent(&LocalUnilateralCloseInfo{
 			SpendDetail: spend,
 			LocalForceCloseSummary: &lnwallet.LocalForceCloseSummary{
@@ -748,7 +777,7 @@ func (w *c13World) htlcRes(c int) *lnwallet.HtlcResolutions {
 		if h.OutputIndex < 0 {
 			continue
 		}
-		op := wire.OutPoint{Hash: c13CommitHash, Index: uint32(h.OutputIndex)}
+		op := wire.OutPoint{Hash: w.commitHash(), Index: uint32(h.OutputIndex)}
 		if h.Incoming {
 			r.IncomingHTLCs = append(r.IncomingHTLCs,
 				lnwallet.IncomingHtlcResolution{
@@ -990,7 +1019,8 @@ const (
 	c13MsgChanDB   = "resume: the channel's close status (closed, close type, close height) is the same as after the uninterrupted run"
 	c13MsgFails    = "resume: exactly the same upstream HTLCs are failed back / finalised as in the uninterrupted run (duplicates allowed)"
 	c13MsgContra   = "no contradictory upstream resolution: an HTLC that is failed back has no live outgoing resolver and is never settled"
-	c13MsgNotify   = "NotifyChannelResolved (MarkChannelResolved) only in StateFullyResolved with no unresolved contract in the log"
+	c13MsgNotify   = "NotifyChannelResolved (MarkChannelResolved) only in StateFullyResolved with no unresolved contract in the log or in the running process"
+	c13MsgSync     = "when the process is idle the state in the log is the state of the running arbitrator"
 	c13MsgNotifyEq = "resume: the channel is reported fully resolved iff the uninterrupted run reports it"
 	c13MsgLive     = "resume: the running process works on exactly the resolvers of the uninterrupted run (none lost, none invented)"
 	c13MsgLiveLog  = "every unresolved contract in the log is live in the running process"
@@ -1007,6 +1037,10 @@ func (w *c13World) liveCoversLog() bool {
 	}
 
 	return c13LiveSubset(logged, w.live())
+}
+
+func (w *c13World) inSync() bool {
+	return w.fullyClosed || w.arb == nil || w.arb.state == w.state
 }
 
 // noContradiction: within one run.
@@ -1042,6 +1076,7 @@ func (w *c13World) noContradiction() bool {
 func c13Check(a, b *c13World) {
 	vAssert(a.errs == 0 && b.errs == 0, c13MsgErr)
 	vAssert(!a.notifyBad && !b.notifyBad, c13MsgNotify)
+	vAssert(a.inSync() && b.inSync(), c13MsgSync)
 	vAssert(a.noContradiction() && b.noContradiction(), c13MsgContra)
 	vAssert(a.liveCoversLog() && b.liveCoversLog(), c13MsgLiveLog)
 
@@ -1146,7 +1181,13 @@ func c13AddHtlcs(sc *c13Scenario, shape int) {
 	}
 }
 
-func c13NewScenario(withHtlcs bool) *c13Scenario {
+// c13QuickShapes: the HTLC shapes of the quick tier (offered on L and R,
+// offered on the pending remote commitment only, received on L and R).
+var c13QuickShapes = [3]int{1, 3, 5}
+
+// htlcMode: 0 no HTLCs, 1 quick shapes, 2 all shapes.
+func c13NewScenario(htlcMode int) *c13Scenario {
+	withHtlcs := htlcMode != 0
 	sc := &c13Scenario{dom: true}
 	sc.closeKind = vChoice("close", 6)
 	sc.first = vChoice("first", 3)
@@ -1158,10 +1199,18 @@ func c13NewScenario(withHtlcs bool) *c13Scenario {
 		if sc.closeKind == c13CloseCoop {
 			vAssume(false)
 		}
-		c13AddHtlcs(sc, 1+vChoice("htlcs", 6))
+		if htlcMode == 1 {
+			c13AddHtlcs(sc, c13QuickShapes[vChoice("htlcs", 3)])
+		} else {
+			c13AddHtlcs(sc, 1+vChoice("htlcs", 6))
+		}
 	} else {
 		sc.hasCommit = vChoice("commitRes", 2) == 1
 		sc.hasAnchor = vChoice("anchorRes", 2) == 1
+		// our channel state is stale: ForceCloseChan refuses, the state
+		// machine waits in StateBroadcastCommit for what confirms
+		sc.dataLoss = sc.first == c13FirstUser &&
+			vChoice("localDataLoss", 2) == 1
 		if sc.closeKind == c13CloseCoop || sc.closeKind == c13CloseNone {
 			if sc.hasCommit || sc.hasAnchor {
 				vAssume(false)
@@ -1201,9 +1250,9 @@ func c13NewWorld(sc *c13Scenario, crashAt ...int) *c13World {
 // window: 0 = every stop point; 1 = only runs in which no restarted process
 // finds StateContractClosed in the log; 2 = only runs in which one does (see
 // NOTES.md, CANDIDATE FINDING).
-func c13Resume(withHtlcs bool, nCrash, window int) {
+func c13Resume(htlcMode, nCrash, window int) {
 	c13Config()
-	sc := c13NewScenario(withHtlcs)
+	sc := c13NewScenario(htlcMode)
 	vAssume(sc.dom)
 
 	// the uninterrupted run
@@ -1269,11 +1318,13 @@ func c13Resume(withHtlcs bool, nCrash, window int) {
 	}
 }
 
-func VerifC13Resume()      { c13Resume(false, 1, 0) }
-func VerifC13Resume2()     { c13Resume(false, 2, 0) }
-func VerifC13ResumeHtlc()  { c13Resume(true, 1, 1) }
-func VerifC13ResumeHtlc2() { c13Resume(true, 2, 1) }
+func VerifC13Resume()        { c13Resume(0, 1, 0) }
+func VerifC13Resume2()       { c13Resume(0, 2, 0) }
+func VerifC13ResumeHtlc()    { c13Resume(1, 1, 1) }
+func VerifC13ResumeHtlcAll() { c13Resume(2, 1, 1) }
+func VerifC13ResumeHtlc2()   { c13Resume(1, 2, 1) }
 
 // VerifC13RestartContractClosed: the stop points after which the restarted
 // process re-executes StateContractClosed with HTLCs in the commit set.
-func VerifC13RestartContractClosed() { c13Resume(true, 1, 2) }
+func VerifC13RestartContractClosed()    { c13Resume(1, 1, 2) }
+func VerifC13RestartContractClosedAll() { c13Resume(2, 1, 2) }
